@@ -99,6 +99,9 @@ def rules(rep, idx, fixture):
     late_binding(rep, idx)
     identity_comparisons(rep, idx)
     if not fixture:
+        from .c20 import plain_member_directions
+        plain_member_directions(rep, idx, "C19.13")
+    if not fixture:
         from . import glue as _glue
         _glue.param_refusals(rep, "C19.12", idx)
 
